@@ -10,6 +10,7 @@ Every call without a model is *opaque*: it returns a fresh value of the
 destination's declared type and is recorded as an Event.  Anything outside the
 subset raises Unsupported (the check then exits 2 instead of guessing).
 """
+import os
 import re
 
 from mir import split_top
@@ -363,8 +364,13 @@ CALL_SUFFIX_RE = re.compile(r" -> (\[return: (bb\d+), unwind[^\]]*\]|unwind[^\]]
 
 
 class Executor:
-    def __init__(self, ctx, models=None, inline=None, unroll=4, max_paths=4000, feasibility=None):
+    def __init__(self, ctx, models=None, inline=None, unroll=4, max_paths=4000, feasibility=None, auto_inline=None, keep_opaque=None):
         self.ctx = ctx
+        # auto_inline = N: crate-local callees that no model covers and whose MIR has at most N basic blocks are
+        # executed instead of being opaque (robustness against extracted helper functions); keep_opaque: regexes
+        # of callees that are boundary events of the kernel and must stay opaque
+        self.auto_inline = auto_inline
+        self.keep_opaque = keep_opaque or []
         self.models = models or []  # [(regex, handler(ex, state, callee, args, dest_ty) -> Value or None)]
         self.inline = inline or []  # callee-name regexes that may be inlined
         self.unroll = unroll
@@ -553,9 +559,15 @@ class Executor:
             return Scalar(("bv", 32, False), bvlit(ord(m.group(1)), 32))
         if t == "()":
             return Unit()
-        if dest_ty and sort_of_type(dest_ty) is None:
-            # unit-like / zero-sized constants (function items, unit variants)
-            return FnItem(t)
+        # a named constant of the crate (`const path::NAME: T = {...}` item in the dump): evaluate its body
+        if getattr(self, "cur_state", None) is not None and re.fullmatch(r"[A-Za-z_][\w:<>{}# ]*", t):
+            cands = [f for f in self.ctx.by_name.get(t, []) if not f.params and not f.text[0].startswith("fn ")]
+            if not cands:  # items are printed under their last path segment
+                cands = [f for f in self.ctx.by_name.get(t.split("::")[-1], []) if not f.params and not f.text[0].startswith("fn ")]
+            if len(cands) == 1:
+                outs = self.exec_fn(cands[0], [], self.cur_state, 9)
+                if len(outs) == 1 and outs[0][2] == "return":
+                    return outs[0][1]
         return FnItem(t)
 
     def operand(self, st, s, dest_ty=None):
@@ -881,11 +893,25 @@ class Executor:
                         else:
                             s2.notes.append("inlined %s: %s" % (f.name, status))
                     return out
+        if self.auto_inline and depth < 4 and not any(re.search(rx, callee) for rx in self.keep_opaque):
+            f = self.resolve(callee, args)
+            if f is not None and len(f.params) == len(args) and sum(1 for b in f.blocks.values() if not b.cleanup) <= self.auto_inline:
+                self.inlined.add(f.name)
+                out = []
+                for s2, rv, status in self.exec_fn(f, args, st, depth + 1):
+                    if status == "return":
+                        out.append((s2, rv))
+                    else:
+                        s2.notes.append("inlined %s: %s" % (f.name, status))
+                return out
         return [(st, self.opaque_call(st, callee, args, dest_ty))]
 
     def opaque_call(self, st, callee, args, dest_ty):
         self.opaque_calls.add(re.sub(r"::<.*", "", callee)[:80])
         rv = self.ctx.fresh_value(dest_ty or "()", "ret." + re.sub(r"<.*", "", callee).split("::")[-1][:30])
+        if isinstance(rv, Scalar) and rv.sort == ("bv", 64, False) and re.search(r"(^|::|>::)len$", re.sub(r"::<[^>]*>", "", callee)):
+            # lengths of slices, strings and vectors never exceed isize::MAX (allocation limit of the language)
+            self.ctx.assumptions.append("(bvule %s %s)" % (rv.term, bvlit((1 << 63) - 1, 64)))
         # havoc every local reachable through a &mut argument
         for a in args:
             if isinstance(a, Ref) and a.kind == "local":
@@ -912,7 +938,8 @@ class Executor:
         return v
 
     def resolve(self, callee, args):
-        name = re.sub(r"::<[^(]*>$", "", callee.strip())
+        name0 = callee.strip()
+        name = re.sub(r"::<[^(]*>$", "", name0)
         name = re.sub(r"::<.*?>", "", name)
         cands = self.ctx.by_name.get(name, [])
         if len(cands) == 1:
@@ -938,4 +965,26 @@ class Executor:
             exact = [f for f in found if re.search(r"\b%s\b" % re.escape(ty), (f.params[0][1] if f.params else "") + " " + f.ret)]
             if len(exact) == 1:
                 return exact[0]
+        # `<A as Trait<B>>::m`: pick the impl whose parameter types fit the trait form and the scalar arguments
+        m = re.fullmatch(r"<(.+?) as ([A-Za-z_:]+)(?:<(.+)>)?>::(\w+)", name0)
+        if m:
+            a_ty, b_ty = m.group(1).strip(), (m.group(3) or m.group(1)).strip()
+            fit = []
+            for f in self.ctx.funcs:
+                if not (f.name.endswith("::" + m.group(4)) and "<impl at" in f.name and len(f.params) == len(args)):
+                    continue
+                tys = [t for _, t in f.params]
+                if len(tys) >= 1 and tys[0] != a_ty:
+                    continue
+                if len(tys) >= 2 and tys[1] != b_ty:
+                    continue
+                ok = True
+                for (_, t), a in zip(f.params, args):
+                    so = sort_of_type(t)
+                    if isinstance(a, Scalar) and so is not None and a.sort != so:
+                        ok = False
+                if ok:
+                    fit.append(f)
+            if len(fit) == 1:
+                return fit[0]
         return None
